@@ -4,6 +4,8 @@ from core import Case
 from . import proggen as G
 
 ID = "C10"
+# theorems of Props/Tables.lean over the tables TRANSLATED from /repo/src and libccp's headers on every run (DESIGN 11.7)
+TABLE_THEOREMS = ['src_opcodes_eq', 'src_regEnc_eq', 'allOps_complete']
 THEOREMS = [
     "Portus.C10.new_with_scope_no_panic", "Portus.C10.compile_no_panic", "Portus.C10.compile_and_serialize_no_panic",
     "Portus.C10.compile_and_serialize_bytes_no_panic", "Portus.C10.check_model",
